@@ -155,7 +155,7 @@ Definition in_rolling_tr (t : tr_spec) (old s : ro_status) (w : wl) (br : option
     else if continuous then
       if negb (ts_refs t) then of_prog (in_rolling sp old s w br) s br g else
       let '(done, o) := reset_tr t u br n g in
-      if co_err o then tp s br false false (co_writes o) (co_graces o) true
+      if co_err o then tp s (co_br o) false false (co_writes o) (co_graces o) true
       else if done then tp (set_prog (set_sub s None) PrInitializing true) (co_br o) false false (co_writes o) (co_graces o) false
       else tp (set_sub s (Some (co_sub o))) (co_br o) false true (co_writes o) (co_graces o) false
     else if plan_changed || sstate_eqb (su_state u) StCompleted then of_prog (in_rolling sp old s w br) s br g
@@ -164,7 +164,8 @@ Definition in_rolling_tr (t : tr_spec) (old s : ro_status) (w : wl) (br : option
       let u := upd_sub u (su_idx u) nx (su_state u) (su_fin u) (su_elapsed u) in
       match run_canary_tr t u w br n g with
       | CrPanic => TpPanic
-      | CrOut o => if co_err o then tp s br false false (co_writes o) (co_graces o) true
+      | CrOut o => (* the rollout-id patch of syncBatchRelease is already written when a later call fails *)
+                   if co_err o then tp s (co_br o) false false (co_writes o) (co_graces o) true
                    else tp (set_sub s (Some (co_sub o))) (co_br o) false (co_requeue o) (co_writes o) (co_graces o) false
       end
   | _, _ => TpPanic
